@@ -144,6 +144,94 @@ def conn_conformance(pid, tier, seed, kind, gen, tag):
     return {"kind": kind, "gen": gen, "scripts": scripts, "trace": trace, "mismatches": mism, "crashes": crashes,
             "events": events, "nscripts": nscripts, "states": sum(r["states"] for r in res)}
 
+# ---------------------------------------------------------------------------
+# specification -> implementation: TLC-generated behaviours replayed into the real connection
+# ---------------------------------------------------------------------------
+GEN_PROJ = {"C01": {"gen:res", "gen:popped"}, "C02": {"gen:res", "gen:popped"}, "C11": {"gen:after-error"}, "C13": {"gen:cont"}}
+
+def gen_conn_replay(pid, tier, seed):
+    """tlc -simulate on Gen_Conn (BUF = 32) prints behaviours with the specification's expectations;
+    they are executed read by read on the real HttpConnection (small build) and compared."""
+    binpath = V.build_harness("small")
+    n = 400 if tier == "quick" else 5000
+    metadir = os.path.join(V.WORK, "tlc", "gen-" + pid)
+    cmd = ["java", "-XX:+UseParallelGC", "-Xmx4g", "-Xss1g", "-cp", V.JAR, "tlc2.TLC", "-workers", "1", "-seed", str(seed),
+           "-simulate", "num=%d" % n, "-depth", "80", "-metadir", metadir, "-noGenerateSpecTE",
+           "-config", os.path.join(V.SPEC, "Gen_Conn.cfg"), os.path.join(V.SPEC, "Gen_Conn.tla")]
+    t0 = time.time()
+    pr = V.sh(cmd, timeout=1800, cwd=V.SPEC)
+    out = pr.stdout.decode(errors="replace")
+    import shutil
+    shutil.rmtree(metadir, ignore_errors=True)
+    if "Error:" in out and "REPLAY" not in out:
+        raise V.ToolError("Gen_Conn simulation failed: " + out[-800:])
+    if re.search(r"Invariant \w+ is violated", out):
+        raise V.ToolError("Gen_Conn: the specification violates its own invariant during simulation")
+    behaviours, seen = [], set()
+    for m in re.finditer(r'^"REPLAY (.*)"$', out, re.M):
+        raw = m.group(1)
+        h = hashlib.sha256(raw.encode()).hexdigest()
+        if h in seen:
+            continue
+        seen.add(h)
+        behaviours.append(json.loads(json.loads('"' + raw + '"')))
+    tag = "%s-gen" % pid
+    scripts = os.path.join(V.WORK, tag + ".scripts")
+    with open(scripts, "w") as f:
+        for i, b in enumerate(behaviours):
+            ev = []
+            for a in b:
+                if a["a"] == "read":
+                    ev.append({"e": "read", "kind": "data", "bytes": a["bytes"], "fds": [], "auto": False})
+                else:
+                    ev.append({"e": "read", "kind": "err", "errno": 11})
+            f.write(json.dumps({"run": i, "fam": 0, "cmp": [], "limit": [5], "ev": ev, "note": "gen", "drain_after_read": True}) + "\n")
+    trace = os.path.join(V.WORK, tag + ".trace")
+    crashes, _ = exec_conn(binpath, scripts, trace, 900)
+    mism = []
+    for rid, note, evs in run_events(trace):
+        b = behaviours[rid]
+        reads = []
+        for e in evs:
+            if e["e"] == "read":
+                reads.append([e, []])
+            elif e["e"] == "write" and reads:
+                reads[-1][1].append(e)
+        errored = False
+        if len(reads) != len(b):
+            mism.append({"run": rid, "fields": ["gen:res"], "detail": "number of reads differs"})
+            continue
+        for (e, writes), a in zip(reads, b):
+            bad = set()
+            if a["a"] == "empty":
+                if e["res"]["k"] != "StreamReadError" or e["popped"]:
+                    bad.add("gen:res")
+            else:
+                if e["bytes"] != a["bytes"]:
+                    raise V.ToolError("replay delivered other bytes than generated")
+                exp_err = a["err"]
+                got = e["res"]["e"]["t"] if e["res"]["k"] == "ParseError" else ("none" if e["res"]["k"] == "Ok" else e["res"]["k"])
+                if got != exp_err:
+                    bad.add("gen:res")
+                exp_reqs = [o for o in a["outs"] if o["k"] == "req"]
+                if len(exp_reqs) != len(e["popped"]) or any(
+                        (o["m"], o["uri"], o["cl"], o["body"], o["expect"], o["ncustom"]) !=
+                        (q["m"], q["uri"], q["h"]["cl"], q["body"], q["h"]["expect"], len(q["h"]["custom"])) for o, q in zip(exp_reqs, e["popped"])):
+                    bad.add("gen:popped")
+                nconts = len([o for o in a["outs"] if o["k"] == "cont"])
+                sent = [w for w in writes if w["sent"]]
+                if len(sent) != nconts or any(bytes(w["sent"][:12]) not in (b"HTTP/1.1 100", b"HTTP/1.0 100") for w in sent):
+                    bad.add("gen:cont")
+            if errored and bad & {"gen:res", "gen:popped"}:
+                bad.add("gen:after-error")
+            if a["a"] == "read" and a["err"] != "none":
+                errored = True
+            if bad:
+                mism.append({"run": rid, "fields": sorted(bad), "detail": {"expected": a, "got": short(e)}})
+                break
+    V.log("%s: %d TLC-generated behaviours replayed on the real connection (TLC %.0fs), %d mismatches, %d crashes" % (tag, len(behaviours), time.time() - t0, len(mism), len(crashes)))
+    return {"behaviours": len(behaviours), "scripts": scripts, "mismatches": mism, "crashes": crashes, "reads": sum(len(b) for b in behaviours)}
+
 def load_script(scripts_path, run):
     with open(scripts_path) as f:
         for i, line in enumerate(f):
@@ -213,7 +301,7 @@ def evidence_from_trace(pid, traces):
                 distinct.add(h)
     return evals, len(distinct), samples
 
-def conn_property(pid, tier, seed, models, drivers, assumptions, design_ref, extra_fn=(), extra_srv=()):
+def conn_property(pid, tier, seed, models, drivers, assumptions, design_ref, extra_fn=(), extra_srv=(), gen=False):
     t0 = time.time()
     known = [k for k in V.load_known() if k["property"] == pid]
     violations, known_hits, oop = [], [], 0
@@ -278,6 +366,23 @@ def conn_property(pid, tier, seed, models, drivers, assumptions, design_ref, ext
         for c in fr["crashes"]:
             sig = "fn|%s|crash" % c["case"].get("e")
             violations.append((sig, V.save_replay(pid, {"property": pid, "level": "fn", "case": c["case"], "signature": sig, "mismatch": {"crash": c["rc"]}})))
+    gres = None
+    if gen:
+        gres = gen_conn_replay(pid, tier, seed)
+        evals += gres["behaviours"]
+        distinct += gres["behaviours"]
+        seen_runs = set()
+        for m in gres["mismatches"]:
+            mine = set(m["fields"]) & GEN_PROJ[pid]
+            if not mine:
+                oop += 1
+                continue
+            if m["run"] in seen_runs:
+                continue
+            seen_runs.add(m["run"])
+            script = load_script(gres["scripts"], m["run"])
+            sig = "gen|small|%s" % ",".join(sorted(mine))
+            violations.append((sig, V.save_replay(pid, {"property": pid, "level": "conn", "build": "small", "script": script, "signature": sig, "mismatch": m})))
     sres = []
     for i, (kind, domain, nq, nt) in enumerate(extra_srv):
         sr = srv_conformance(pid, tier, seed, kind, domain, nq if tier == "quick" else nt, "%s-srv-%s-%d" % (pid, kind, i))
@@ -301,6 +406,7 @@ def conn_property(pid, tier, seed, models, drivers, assumptions, design_ref, ext
         "samples": samples,
         "evaluations": evals,
         "distinct_nontrivial": distinct,
+        "spec_to_impl": ({"tlc_generated_behaviours_replayed": gres["behaviours"], "reads": gres["reads"], "mismatches": len(gres["mismatches"])} if gres else None),
         "server_histories": [{"build": s["kind"], "domain": s["domain"], "trace_events_validated": s["events"], "divergent_histories": len(s["mismatches"])} for s in sres],
         "rule": RULES[pid],
         "exhaustive": False,
@@ -336,17 +442,17 @@ def conn_models(tier, extra=()):
     return (["conn_quick"] if tier == "quick" else ["conn_guided4", "conn_free3"]) + list(extra)
 
 TABLE = {
-    "C01": lambda tier, seed: conn_property("C01", tier, seed, conn_models(tier), [("small", "C01"), ("full", "C01")], CONN_ASSUME, "DESIGN.md 6 C01"),
+    "C01": lambda tier, seed: conn_property("C01", tier, seed, conn_models(tier), [("small", "C01"), ("full", "C01")], CONN_ASSUME, "DESIGN.md 6 C01", gen=True),
     "C02": lambda tier, seed: conn_property("C02", tier, seed, conn_models(tier), [("full", "C02")], CONN_ASSUME, "DESIGN.md 6 C02"),
     "C03": lambda tier, seed: conn_property("C03", tier, seed, conn_models(tier), [("full", "C03"), ("small", "C03")], CONN_ASSUME, "DESIGN.md 6 C03", extra_fn=["C03"]),
     "C04": lambda tier, seed: conn_property("C04", tier, seed, conn_models(tier), [("full", "C04"), ("small", "C04")], CONN_ASSUME, "DESIGN.md 6 C04",
                                             extra_srv=[("full", "C04", 200, 2000)]),
     "C06": lambda tier, seed: conn_property("C06", tier, seed, ["mc_write"], [("full", "C06")], CONN_ASSUME, "DESIGN.md 6 C06"),
     "C11": lambda tier, seed: conn_property("C11", tier, seed, conn_models(tier), [("full", "C11"), ("small", "C11")], CONN_ASSUME, "DESIGN.md 6 C11",
-                                            extra_srv=[("full", "C09", 150, 1500)]),
+                                            extra_srv=[("full", "C09", 150, 1500)], gen=True),
     "C12": lambda tier, seed: conn_property("C12", tier, seed, ["conn_files"], [("full", "C12")], CONN_ASSUME, "DESIGN.md 6 C12"),
     "C13": lambda tier, seed: conn_property("C13", tier, seed, conn_models(tier), [("full", "C13"), ("small", "C13")], CONN_ASSUME, "DESIGN.md 6 C13",
-                                            extra_srv=[("full", "C08", 200, 2000)]),
+                                            extra_srv=[("full", "C08", 200, 2000)], gen=True),
 }
 
 # ---------------------------------------------------------------------------
